@@ -128,6 +128,12 @@ func ruleHeaderLayout(c *core.Ctx) {
 		case "sub":
 			got = append(got, docField{"", "magic", 4})
 		case "prim":
+			if t.Name == "Bytes" && len(got) == 0 {
+				// the magic written inline: a fixed number of raw bytes (checked above
+				// to be Header.Magic in big-endian order)
+				got = append(got, docField{"", "magic", t.Len})
+				continue
+			}
 			got = append(got, docField{"", normDocName(t.Field), primWidth[t.Name]})
 		}
 	}
